@@ -31,6 +31,6 @@ MANIFEST_ENTRY = dict(
     category='other',
     engine='bounded',
     technique='sidecar contracts on the real functions: wiring / closed-form obligations from the AST discharged by z3 and the ring normaliser where the functions are within reach; bounded run-time contracts with independent oracles for the rest (never counted as proved)',
-    text='Discharged from the real source on every run (all values, stated small shapes): deposition law of _admixture_intermediates (n=3,4,5), destination-grid/axis roles of the 14 pulse functions, every pulse function and every new-population constructor *executed* on 2- and 3-point-per-axis grids (bracket indices in general position) against the bracket-deposition (+ trapezoid) spec (helper by abstract result, fractions in population order); reorder_pops, remove_pop, filter_pops on phi incl. mass conservation. Bounded run-time contracts (never counted as proved): Deposition law and marginal conservation for every constructor and pulse function, simplex acceptance/rejection, removal and reordering.',
+    text='Discharged from the real source on every run (all values, stated small shapes): deposition law of _admixture_intermediates (n=3,4,5), destination-grid/axis roles of the 14 pulse functions, every pulse function and the simplex guards of the four helpers (refusal only beyond a round-off allowance), every new-population constructor *executed* on 2- and 3-point-per-axis grids (bracket indices in general position) against the bracket-deposition (+ trapezoid) spec (helper by abstract result, fractions in population order); reorder_pops, remove_pop, filter_pops on phi incl. mass conservation. Bounded run-time contracts (never counted as proved): Deposition law and marginal conservation for every constructor and pulse function, simplex acceptance/rejection, removal and reordering.',
     note='bounded: see coverage.bounded.drivers[].bound in the evidence file for the exact domain of every driver',
 )
